@@ -36,3 +36,8 @@ add('C11', 'ENUM', 'exploration',
     'jira_checks is run on every combination of source name, target list, ticketless flags, issue (absent / type x every subset of a fix-version universe) and settings, and compared with the decision ladder of the statement; a repository stub that raises on any command proves the repository is untouched.',
     'bert_e.lib.jira.JiraIssue replaced by a table-driven fake; expected versions given (C09 checks their computation).',
     'exhaustive input enumeration vs reference oracle', 'DESIGN.md section 5 C11')
+
+add('C17', 'ENUM', 'exploration',
+    '(a) AggregatedWorkflowRuns.state is evaluated on every ordered list of workflow runs of the bounded alphabet (5.8M lists quick) and checked against the soundness clause of the statement (SUCCESSFUL only if some head branch has all considered workflows green; never when there is no run).',
+    'Run dictionaries have the shape used by the pinned unit tests and are loaded with _validate=False; best run per workflow id, any tie-break accepted. Part (b) (status cache stickiness) is added by module C17b when present.',
+    'exhaustive input enumeration vs soundness oracle', 'DESIGN.md section 5 C17')
